@@ -42,7 +42,7 @@ func oneofVariants(w *core.World, pkgPath, marker string) []string {
 // typeSwitchCases returns the concrete types asserted (how often) from values of the given oneof interface in fn.
 func typeSwitchCases(fn *ssa.Function, ifaceSuffix string) map[string]int {
 	out := map[string]int{}
-	for _, b := range fn.Blocks {
+	for _, b := range core.Blocks(fn) {
 		for _, in := range b.Instrs {
 			ta, ok := in.(*ssa.TypeAssert)
 			if !ok || !strings.HasSuffix(ta.X.Type().String(), ifaceSuffix) {
@@ -121,7 +121,7 @@ var typeNameSwitches = []typeSwitchSpec{
 // string switch cases of fn: constants compared (==) with the switched string value
 func stringSwitchConsts(fn *ssa.Function) map[string]bool {
 	out := map[string]bool{}
-	for _, b := range fn.Blocks {
+	for _, b := range core.Blocks(fn) {
 		for _, in := range b.Instrs {
 			bo, ok := in.(*ssa.BinOp)
 			if !ok || bo.Op != token.EQL {
@@ -539,7 +539,7 @@ func c12(w *core.World, r *core.Report) {
 			}
 			conv := len(core.CallsTo(f, "utils.Convert", "datastore/target/netconf.StringElementToTypedValue")) > 0
 			lit := false
-			for _, b := range f.Blocks {
+			for _, b := range core.Blocks(f) {
 				for _, in := range b.Instrs {
 					if al, ok := in.(*ssa.Alloc); ok && strings.HasPrefix(core.TypeKey(al.Type()), "github.com/sdcio/sdc-protos/sdcpb.TypedValue_") {
 						lit = true
